@@ -85,9 +85,10 @@ Proof.
     assert (H3 : ext s0 s3).
     { destruct (mem d (solving s0)); [inversion Es3; subst; apply ext_refl|].
       match type of Es3 with match ?r1 with _ => _ end = _ => destruct r1 as [s1|e] eqn:Es1; [|discriminate] end.
-      destruct (mem d (fmap s1)); [|discriminate]. inversion Es3; subst s3; clear Es3.
+      destruct (mem d (fmap s1)); [|discriminate].
       assert (H1 : ext s0 s1).
       { destruct (mem d (fmap s0)); [inversion Es1; subst; apply ext_refl|]. eapply add_form_ext; eassumption. }
+      destruct (mem d (solving s1)); [inversion Es3; subst s3; exact H1|]. inversion Es3; subst s3; clear Es3.
       destruct H1 as (A & B & D). unfold ext, add_unattempted; cbn. auto. }
     destruct H3 as (A & B & D). unfold ext; cbn. auto.
   - inversion H; subst s'; clear H. unfold ext; cbn; repeat split; auto using ssub_refl, sub_refl.
@@ -158,8 +159,36 @@ Proof.
       * assumption.
       * assumption.
     + match type of Es3 with match ?r1 with _ => _ end = _ => destruct r1 as [s1|e] eqn:Es1; [|discriminate] end.
-      destruct (mem d (fmap s1)) eqn:Emf; [|discriminate]. inversion Es3; subst s3; clear Es3.
+      destruct (mem d (fmap s1)) eqn:Emf; [|discriminate].
       apply mem_in in Emf.
+      destruct (mem d (solving s1)) eqn:Ems1.
+      { (* d is a required line of the form just added: add_form scheduled it *)
+        inversion Es3; subst s3; clear Es3. apply mem_in in Ems1.
+        assert (Hdf : DemE ((f, d) :: edges s0) f).
+        { apply (DemE_mono (edges s0)); [intros x Hx; right; exact Hx|auto]. }
+        assert (Hdd : DemE ((f, d) :: edges s0) d) by (eapply de_edge; [exact Hdf|left; reflexivity]).
+        destruct (mem d (fmap s0)) eqn:Em0.
+        { inversion Es1; subst s1. apply mem_false in Em. contradiction. }
+        destruct (add_form_spec C rank ans _ _ _ _ Es1) as (fi & Hfi & _ & _ & _ & _ & _ & _ & _ & Ee & _ & Hf & Hm & _ & Hs).
+        constructor; cbn [edges forms fmap solving]; rewrite ?Ee.
+        -- intros g Hg. apply Hs in Hg as [Hg|Hg].
+           ++ eapply de_form; [exact Hdf|left; reflexivity|exact Hfi|exact Hg].
+           ++ apply (DemE_mono (edges s0)); [intros x Hx; right; exact Hx|auto].
+        -- intros F HF. apply Hf in HF as [->|HF].
+           ++ right. exists f, d. split; [exact Hdf|]. split; [left; reflexivity|reflexivity].
+           ++ destruct (j_forms0 F HF) as [X|(g & d0 & X1 & X2 & X3)]; [left; exact X|right].
+              exists g, d0. split; [apply (DemE_mono (edges s0)); [intros x Hx; right; exact Hx|exact X1]|].
+              split; [right; exact X2|exact X3].
+        -- intros g d0 [E|Hin]; apply Hs; right; [inversion E; subst; exact Hfsol|eauto].
+        -- intros g d0 [E|Hin]; [inversion E; subst|]; apply (sreads_ext s0); auto.
+        -- intros F fi0 f0 HF Hc Hin. apply Hs. apply Hf in HF as [->|HF].
+           ++ rewrite Hfi in Hc. inversion Hc; subst. left. exact Hin.
+           ++ right. eauto.
+        -- intros g Hg. apply Hm. apply Hs in Hg as [Hg|Hg]; [left; left; exact Hg|right; auto].
+        -- intros d0 Hd0. apply Hf. apply Hm in Hd0 as [Hd0|Hd0].
+           ++ left. apply (Hwf _ fi d0 Hfi). apply in_or_app. exact Hd0.
+           ++ right. auto. }
+      inversion Es3; subst s3; clear Es3.
       assert (Hdf : DemE ((f, d) :: edges s0) f).
       { apply (DemE_mono (edges s0)); [intros x Hx; right; exact Hx|auto]. }
       assert (Hdd : DemE ((f, d) :: edges s0) d) by (eapply de_edge; [exact Hdf|left; reflexivity]).
@@ -272,9 +301,10 @@ Proof.
     assert (H3 : grows s0 s3).
     { destruct (mem d (solving s0)); [inversion Es3; subst; apply grows_refl|].
       match type of Es3 with match ?r1 with _ => _ end = _ => destruct r1 as [s1|e] eqn:Es1; [|discriminate] end.
-      destruct (mem d (fmap s1)); [|discriminate]. inversion Es3; subst s3; clear Es3.
+      destruct (mem d (fmap s1)); [|discriminate].
       assert (H1 : grows s0 s1).
       { destruct (mem d (fmap s0)); [inversion Es1; subst; apply grows_refl|]. eapply add_form_grows; eassumption. }
+      destruct (mem d (solving s1)); [inversion Es3; subst s3; exact H1|]. inversion Es3; subst s3; clear Es3.
       destruct H1 as [A B]. split; unfold add_unattempted; cbn; [exact A|].
       intros x Hx. apply add_names_in. right. auto. }
     destruct H3 as [A B]. split; cbn; assumption.
